@@ -37,6 +37,11 @@ U.block("src/buf/buf_impl.rs", "trait Buf", spec_items=BUF_SPEC, fns={
     "chunk": Fn(ret="r", spec="requires self.wf(),\nensures r@.is_prefix_of(self.seq()), (r@.len() == 0 <==> self.seq().len() == 0),"),
     "advance": Fn(spec="requires (*old(self)).wf(), cnt <= (*old(self)).seq().len(),\nensures " + ADV_ENS),
     "has_remaining": Fn(ret="r", spec="requires self.wf(),\nensures r == (self.seq().len() > 0),"),
+    # adapter constructors of the trait
+    "take": Fn(ret="r", spec="ensures r.spec_limit() == limit, r.spec_inner() == self,"),
+    # `chain<U: Buf>` is not extracted: a default method with a bounded type parameter crashes this
+    # Verus version (vir/src/traits.rs, inherit_default_bodies); it is the one-liner `Chain::new(self, next)`
+    "reader": Fn(ret="r", spec="ensures r.spec_buf() == self,"),
     "copy_to_slice": Fn(spec="""requires (*old(self)).wf(), (*old(self)).seq().len() >= old(dst)@.len(),
 ensures (*final(self)).wf(), final(dst)@ == (*old(self)).seq().take(old(dst)@.len() as int),
     (*final(self)).seq() == (*old(self)).seq().skip(old(dst)@.len() as int),""",
@@ -96,6 +101,9 @@ open spec fn wf(&self) -> bool { true }
     "remaining": Fn(ret="r"),
     "chunk": Fn(ret="r"),
     "advance": Fn(),
+    # the specialised (single memcpy) override of the default loop
+    "copy_to_slice": Fn(hints=[("body_start", "", "let ghost s0 = self@; let ghost n = dst@.len();"),
+                               ("body_end", "", "proof { assert(s0.subrange(0, n as int) =~= s0.take(n as int)); }")]),
 })
 
 # ---- Take -----------------------------------------------------------------------------------
@@ -108,8 +116,11 @@ pub closed spec fn spec_inner(&self) -> T { self.inner }
     "get_ref": Fn(ret="r", spec="ensures *r == self.spec_inner(),"),
     "limit": Fn(ret="r", spec="ensures r == self.spec_limit(),"),
     "set_limit": Fn(spec="ensures (*final(self)).spec_limit() == lim, (*final(self)).spec_inner() == (*old(self)).spec_inner(),"),
+    # the inner buffer, mutably: whatever the caller does through the reference IS the new inner
+    # buffer; the limit is untouched
+    "get_mut": Fn(ret="r", spec="ensures *r == (*old(self)).spec_inner(), (*final(self)).spec_inner() == *final(r), (*final(self)).spec_limit() == (*old(self)).spec_limit(),"),
 })
-U.free_fn("src/buf/take.rs", "new", Fn(ret="r", spec="ensures r.spec_limit() == limit, r.spec_inner() == inner,"))
+U.free_fn("src/buf/take.rs", "new", Fn(ret="r", spec="ensures r.spec_limit() == limit, r.spec_inner() == inner,"), wrap_mod="take")
 
 U.block("src/buf/take.rs", "impl<T: Buf> Buf for Take<T>", spec_items=r'''
 // exactly the first min(limit, remaining) bytes of the inner buffer
@@ -137,6 +148,8 @@ pub closed spec fn spec_b(&self) -> U { self.b }
     "new": Fn(ret="r", spec="ensures r.spec_a() == a, r.spec_b() == b,"),
     "first_ref": Fn(ret="r", spec="ensures *r == self.spec_a(),"),
     "last_ref": Fn(ret="r", spec="ensures *r == self.spec_b(),"),
+    "first_mut": Fn(ret="r", spec="ensures *r == (*old(self)).spec_a(), (*final(self)).spec_a() == *final(r), (*final(self)).spec_b() == (*old(self)).spec_b(),"),
+    "last_mut": Fn(ret="r", spec="ensures *r == (*old(self)).spec_b(), (*final(self)).spec_b() == *final(r), (*final(self)).spec_a() == (*old(self)).spec_a(),"),
     "into_inner": Fn(ret="r", spec="ensures r.0 == self.spec_a(), r.1 == self.spec_b(),"),
 })
 U.block("src/buf/chain.rs", "impl<T, U> Buf for Chain<T, U> where T: Buf, U: Buf,", spec_items=r'''
@@ -172,6 +185,7 @@ pub closed spec fn spec_inner(&self) -> T { self.inner }
     "new": Fn(ret="r", spec="ensures r.spec_inner() == inner,"),
     "into_inner": Fn(ret="r", spec="ensures r == self.spec_inner(),"),
     "get_ref": Fn(ret="r", spec="ensures *r == self.spec_inner(),"),
+    "get_mut": Fn(ret="r", spec="ensures *r == (*old(self)).spec_inner(), (*final(self)).spec_inner() == *final(r),"),
 })
 U.block("src/buf/iter.rs", "impl<T: Buf> Iterator for IntoIter<T>", emit_header="impl<T: Buf> IntoIter<T>", fns={
     "next": Fn(ret="r", spec="""requires (*old(self)).spec_inner().wf(),
@@ -242,6 +256,7 @@ U.text("impl<B> Reader<B> { pub closed spec fn spec_buf(&self) -> B { self.buf }
 U.free_fn("src/buf/reader.rs", "new", Fn(ret="r", spec="ensures r.spec_buf() == buf,"), wrap_mod="reader")
 U.block("src/buf/reader.rs", "impl<B: Buf> Reader<B>", fns={
     "get_ref": Fn(ret="r", spec="ensures *r == self.spec_buf(),"),
+    "get_mut": Fn(ret="r", spec="ensures *r == (*old(self)).spec_buf(), (*final(self)).spec_buf() == *final(r),"),
     "into_inner": Fn(ret="r", spec="ensures r == self.spec_buf(),"),
 })
 U.block("src/buf/reader.rs", "impl<B: Buf + Sized> io::Read for Reader<B>", emit_header="impl<B: Buf + Sized> Reader<B>", fns={
